@@ -38,7 +38,11 @@ for d, rnd in dirs:
     meta["checks_run"] = ran
     meta["caught_by"] = caught
     json.dump(meta, open(os.path.join(dst, "meta.json"), "w"), indent=1, ensure_ascii=False)
-    rows.append((f"{pid}-{k}", meta.get("site", ""), meta.get("summary", "")[:160].replace("\n", " "), ", ".join(caught) or "MISSED", meta["confirmed"]["demo_fails_with_change"], meta["confirmed"]["pinned_suite_with_change"]))
+    neutral = not meta["confirmed"]["demo_fails_with_change"]
+    if neutral:
+        meta["status"] = "neutralised: on the current tree the demonstration passes with the change applied (a later fix: commit removed the defect class the change relied on, e.g. the intern cache no longer trusts the hash alone); kept for the record, not counted"
+    json.dump(meta, open(os.path.join(dst, "meta.json"), "w"), indent=1, ensure_ascii=False)
+    rows.append((f"{pid}-{k}", meta.get("site", ""), meta.get("summary", "")[:160].replace("\n", " "), "(neutralised by a later fix)" if neutral else (", ".join(caught) or "MISSED"), meta["confirmed"]["demo_fails_with_change"], meta["confirmed"]["pinned_suite_with_change"]))
 with open(os.path.join(out_root, "INDEX.md"), "w") as f:
     f.write("# Seeded property-breaking changes (from independent sub-agents) and which quick checks report them\n\n")
     f.write("| seed | site | change | caught by (quick tier) | demo fails | suite with change |\n|---|---|---|---|---|---|\n")
